@@ -251,11 +251,68 @@ pub fn random_msg(rng: &mut impl Rng, d: &Driver, hostile: bool) -> MsgSpec {
     }
 }
 
+/// Long-term: a server message that is plausible for the client's current credential state
+/// (read from the snapshot), so that random walks get deep into the challenge / retry /
+/// stale-nonce / authenticated phases instead of being discarded at the door.
+pub fn guided_lt_msg(rng: &mut impl Rng, d: &Driver) -> MsgSpec {
+    use stun_agent::verif::VerifMechanism;
+    let snap = d.snapshot();
+    let (state, algs_present) = match &snap.mechanism {
+        VerifMechanism::LongTerm(lt) => (
+            lt.state,
+            lt.params.as_ref().map(|p| p.algorithms.is_some()).unwrap_or(false),
+        ),
+        _ => ("First", false),
+    };
+    let good = if algs_present { "sha" } else { "mi" };
+    let target = Target::Tx(rng.random_range(0..3));
+    let fp = if rng.random_range(0..100) < 92 { "auto" } else { "bad" };
+    let mk = |class: u8, code: u16, auth: &str, lt: Value| MsgSpec {
+        target: target.clone(),
+        class,
+        method: None,
+        code,
+        auth: auth.to_string(),
+        fp: fp.to_string(),
+        lt,
+        raw: None,
+    };
+    let challenge = |rng: &mut dyn FnMut(u32) -> u32| -> Value {
+        let algs = ["none", "none", "md5", "sha", "md5_sha", "sha_md5", "unsup_md5"][rng(7) as usize];
+        let cookie = algs != "none" || rng(2) == 0;
+        json!({"realm": if rng(12) == 0 { "other" } else { "ok" },
+               "nonce": if cookie { "fresh_cookie" } else { "fresh" },
+               "pa": algs != "none", "ua": cookie && rng(3) == 0, "algs": algs, "dup": rng(10) == 0})
+    };
+    let mut r = |n: u32| rng.random_range(0..n);
+    if state == "First" {
+        match r(100) {
+            0..=74 => mk(3, 401, "none", challenge(&mut r)),
+            75..=84 => mk(2, 0, "none", json!({})),
+            _ => mk(3, 438, "none", json!({"nonce":"fresh","realm":"ok"})),
+        }
+    } else {
+        match r(100) {
+            0..=39 => mk(2, 0, good, json!({})),
+            40..=54 => mk(3, 438, if r(2) == 0 { good } else { "none" },
+                          json!({"nonce": if algs_present {"fresh_cookie"} else {"fresh"}, "pa": algs_present, "ua": false, "realm":"ok"})),
+            55..=64 => mk(3, [400u16, 420, 500, 300][r(4) as usize], good, json!({})),
+            65..=76 => mk(3, 401, if r(3) == 0 { good } else { "none" }, challenge(&mut r)),
+            77..=82 => mk(2, 0, if good == "sha" { "mi" } else { "sha" }, json!({})),
+            83..=88 => mk(2, 0, if good == "sha" { "sha_bad" } else { "mi_bad" }, json!({})),
+            89..=93 => mk(2, 0, if good == "sha" { "sha_otherpw" } else { "mi_otherpw" }, json!({})),
+            94..=96 => mk(2, 0, "both", json!({})),
+            _ => mk(2, 0, "none", json!({})),
+        }
+    }
+}
+
 /// One random step, biased by `profile`
 pub fn random_step(rng: &mut impl Rng, d: &Driver, profile: &str) -> Step {
     let weights: [(u32, &str); 4] = match profile {
         "capacity" => [(40, "send"), (8, "indic"), (27, "timeout"), (25, "recv")],
         "sched" => [(15, "send"), (2, "indic"), (70, "timeout"), (13, "recv")],
+        "lt" => [(33, "send"), (3, "indic"), (19, "timeout"), (45, "recv")],
         _ => [(25, "send"), (6, "indic"), (29, "timeout"), (40, "recv")],
     };
     match *wpick(rng, &weights) {
@@ -272,6 +329,13 @@ pub fn random_step(rng: &mut impl Rng, d: &Driver, profile: &str) -> Step {
             buf: *wpick(rng, &[(8, 1024usize), (1, 10)]),
         },
         "timeout" => Step::Timeout { at: random_timer_time(rng, d) },
-        _ => Step::Recv { at: small_dt(rng, d), msg: random_msg(rng, d, false) },
+        _ => {
+            let msg = if d.cfg.mech == "lt" && !d.sent.is_empty() && rng.random_range(0..100) < 70 {
+                guided_lt_msg(rng, d)
+            } else {
+                random_msg(rng, d, false)
+            };
+            Step::Recv { at: small_dt(rng, d), msg }
+        }
     }
 }
